@@ -1112,6 +1112,17 @@ def fam_async_placements(tier: str, rng: random.Random) -> Iterator[dict]:
                             assert p is not None
                             p["con"][0]["rv"] = rv
                             yield p
+            if kind == "method":
+                # an invariant condition that returns a coroutine object (it calls an `async def` helper): never awaited,
+                # so it must be rejected - on sync and on async methods, and after the constructor - not taken as truthy
+                for ctor_breaks in (False, True):
+                    p = class_prog(["CALL"], [("method", 0), ("method", 2)], [(1, 1), (2, 1)], tag="async-inv-coro")
+                    p["con"][0]["rv"] = "coro"
+                    p["fn"][1]["async"] = owner_async
+                    p["fn"][2]["async"] = owner_async
+                    if ctor_breaks:
+                        p["fn"][0]["setst"] = 2
+                    yield p
             for rv in ("bool", "corofn", "coro"):
                 p = member_prog(kind, False, [], 1, 1, [], [True], ["default"], False, owner_async, tag="async-cap")
                 assert p is not None
